@@ -285,7 +285,10 @@ func c20Families(tier string) []explore.Family {
 		if !strings.HasPrefix(c20.clean[c.t], string(fw.before)) {
 			r.Violation("not-a-prefix", desc(), "accepted bytes are a prefix of "+trunc80(fmt.Sprintf("%q", c20.clean[c.t])), trunc80(fmt.Sprintf("%q", fw.before)))
 		}
-		if c.forever && fw.after > 1 {
+		// "rendering stops": no further nodes are rendered. Held-back text may still be flushed once per
+		// enclosing block on the way out (nesting depth <= 3 here), so up to 4 further Write attempts are
+		// not "continuing to render"; a render that keeps going makes W-k-1 of them.
+		if c.forever && fw.after > 4 {
 			r.Violation("keeps-writing", desc(), "rendering stops after the writer failed", fmt.Sprintf("%d more Write calls", fw.after))
 		}
 		if !c.forever && !strings.HasPrefix(fw.got.String(), string(fw.before)) {
